@@ -975,6 +975,14 @@ func (nr *netRun) checkC08(x *xfer) {
 				ended = true
 			}
 		}
+		// two updates of the same channel in flight at once (each DataLimitExceeded is answered by its own application
+		// task; a call can take long when its response has to cross a cut connection): the state after one of them cannot
+		// be attributed
+		for j, o2 := range ups {
+			if j != i && o2.Call.S0 <= op.Call.S1 && (!o2.Call.Returned || o2.Call.S1 >= op.Call.S0) {
+				ended = true
+			}
+		}
 		if ended {
 			continue
 		}
